@@ -273,3 +273,134 @@ theorem facesProper_of {g : Grid} (hw : Arity g) (hp : ∀ c ∈ g.pyr, c.nodes.
   · exact pri_faces_proper (hw.pri c hc) (hr c hc) f hf
 
 end Refine.MixedLemmas
+
+namespace Refine.MixedLemmas
+open Refine Refine.Model Refine.Model.Guards Refine.Model.Mixed Refine.GuardsRules
+
+/-! ## invariants along a history of simplicial operations -/
+
+variable {P : Type}
+
+theorem arity_of_same {g' g : Grid} (hg : SameFrozenGroups g' g) (hw : Arity g) : Arity g' :=
+  ⟨by rw [hg.1]; exact hw.qua, by rw [hg.2.1]; exact hw.pyr, by rw [hg.2.2.1]; exact hw.pri,
+    by rw [hg.2.2.2]; exact hw.hex⟩
+
+theorem facesProper_of_same {g' g : Grid} (hg : SameFrozenGroups g' g) (hp : FacesProper g) : FacesProper g' := by
+  intro k hk
+  rw [mixedTriFaces_eq_of hg] at hk
+  exact hp k hk
+
+theorem addNode_g (m : Mesh P) (new : Nat) (p : P) : (addNode m new p).2.g = m.g := by
+  unfold addNode; split_ifs <;> rfl
+
+theorem splitEdge_g (m : Mesh P) (n0 n1 new : Nat) (p : P) :
+    (splitEdge m n0 n1 new p).2.g = m.g ∨ (splitEdge m n0 n1 new p).2.g = (splitCells m.g n0 n1 new).2 := by
+  unfold splitEdge
+  dsimp only
+  split_ifs
+  · exact Or.inl (addNode_g m new p)
+  · right
+    dsimp only
+    rw [addNode_g]
+
+theorem subst_length (old new : Nat) (c : Cell) : (Cell.subst old new c).nodes.length = c.nodes.length := by
+  rw [subst_nodes, List.length_map]
+
+theorem mem_splitGroup {cells : List Cell} {n0 n1 new : Nat} {d : Cell} (h : d ∈ splitGroup cells n0 n1 new) :
+    ∃ c ∈ cells, d = c ∨ d = Cell.subst n0 new c ∨ d = Cell.subst n1 new c := by
+  unfold splitGroup at h
+  rw [List.mem_flatMap] at h
+  obtain ⟨c, hc, hd⟩ := h
+  refine ⟨c, hc, ?_⟩
+  split_ifs at hd
+  · simp only [List.mem_cons, List.not_mem_nil, or_false] at hd
+    rcases hd with rfl | rfl
+    · exact Or.inr (Or.inl rfl)
+    · exact Or.inr (Or.inr rfl)
+  · simp only [List.mem_cons, List.not_mem_nil, or_false] at hd
+    exact Or.inl hd
+
+/-- every boundary triangle has three vertices -/
+def TriArity (g : Grid) : Prop := ∀ c ∈ g.tri, c.nodes.length = 3
+
+theorem triArity_splitGroup {cells : List Cell} {n0 n1 new : Nat} (h : ∀ c ∈ cells, c.nodes.length = 3) :
+    ∀ c ∈ splitGroup cells n0 n1 new, c.nodes.length = 3 := by
+  intro d hd
+  obtain ⟨c, hc, (rfl | rfl | rfl)⟩ := mem_splitGroup hd
+  · exact h _ hc
+  · rw [subst_length]; exact h c hc
+  · rw [subst_length]; exact h c hc
+
+theorem triArity_splitCells {g : Grid} (n0 n1 new : Nat) (h : TriArity g) : TriArity (splitCells g n0 n1 new).2 := by
+  unfold splitCells TriArity
+  dsimp only
+  split_ifs <;> dsimp only
+  · exact h
+  · exact h
+  · exact triArity_splitGroup h
+  · exact triArity_splitGroup h
+
+theorem triArity_swapCells {g : Grid} (n0 n1 : Nat) (h : TriArity g) : TriArity (swapCells g n0 n1).2 := by
+  unfold swapCells
+  split
+  · split
+    · intro c hc
+      dsimp only at hc
+      rw [List.mem_append] at hc
+      rcases hc with hc | hc
+      · exact h c (List.mem_of_mem_erase (List.mem_of_mem_erase hc))
+      · simp only [List.mem_cons, List.not_mem_nil, or_false] at hc
+        rcases hc with rfl | rfl <;> rfl
+    · exact h
+    · exact h
+  · exact h
+
+/-! ## 2-D: sides of quadrilaterals -/
+
+theorem mem_quaSides {g : Grid} {k : List Nat} :
+    k ∈ quaSides g ↔ ∃ c ∈ g.qua, ∃ p ∈ e2nQua, k = [c.nd p.1, c.nd p.2] := by
+  unfold quaSides
+  simp only [List.mem_flatMap, List.mem_map]
+  constructor
+  · rintro ⟨c, hc, p, hp, rfl⟩; exact ⟨c, hc, p, hp, rfl⟩
+  · rintro ⟨c, hc, p, hp, rfl⟩; exact ⟨c, hc, p, hp, rfl⟩
+
+theorem guard_side {g : Grid} (hw : Arity g) {n0 n1 : Nat} (hne : n0 ≠ n1)
+    (hguard : Guards.splitEdgeMixed g n0 n1 = true) : ∀ k ∈ quaSides g, ¬ (n0 ∈ k ∧ n1 ∈ k) := by
+  intro k hk ⟨h0, h1⟩
+  have hnot := (splitEdgeMixed_true_iff hw n0 n1).mp hguard
+  obtain ⟨c, hc, p, hp, rfl⟩ := mem_quaSides.mp hk
+  simp only [List.mem_cons, List.not_mem_nil, or_false] at h0 h1
+  apply hnot
+  refine Or.inr (Or.inr (Or.inr ⟨c, hc, p, hp, ?_⟩))
+  rcases h0 with h0 | h0 <;> rcases h1 with h1 | h1
+  · exact absurd (h0.trans h1.symm) hne
+  · exact Or.inl ⟨h0, h1⟩
+  · exact Or.inr ⟨h0, h1⟩
+  · exact absurd (h0.trans h1.symm) hne
+
+theorem matched2_iff {g : Grid} {k : List Nat} :
+    matched2 g k = true ↔ (∃ c ∈ g.tri, covers c k = true) ∨ (∃ c ∈ g.edg, covers c k = true) := by
+  unfold matched2
+  simp [List.any_eq_true]
+
+theorem splitCells_matched2 {g : Grid} {n0 n1 new : Nat} {k : List Nat} (hk : ¬ (n0 ∈ k ∧ n1 ∈ k))
+    (hok : (splitCells g n0 n1 new).1 = .ok) (h : matched2 g k = true) :
+    matched2 (splitCells g n0 n1 new).2 k = true := by
+  rw [matched2_iff] at h
+  have hr : (∃ c ∈ g.tri, covers c k = true) → ∃ c ∈ splitGroup g.tri n0 n1 new, covers c k = true :=
+    cover_splitGroup hk
+  have he : (∃ c ∈ g.edg, covers c k = true) → ∃ c ∈ splitGroup g.edg n0 n1 new, covers c k = true :=
+    cover_splitGroup hk
+  unfold splitCells at hok ⊢
+  dsimp only at hok ⊢
+  split_ifs at hok ⊢
+  all_goals first | exact absurd hok (by decide) | skip
+  rw [matched2_iff]
+  exact h.imp hr he
+
+theorem quaSides_eq_of {g' g : Grid} (hg : SameFrozenGroups g' g) : quaSides g' = quaSides g := by
+  unfold quaSides
+  rw [hg.1]
+
+end Refine.MixedLemmas
